@@ -7,7 +7,7 @@
    not yet covered by a theorem are decided by the implementation <-> specification <->
    hardware differential run only (listed as unproved_forms in the evidence). *)
 From Coq Require Import ZArith Bool List Lia.
-From AxV Require Import Bits Outcome Codes Iced State Rt Mem Trace Exec ExecP FrameTac FrameP RegFile RegsP ByteStore ISA CodeSem IsaP OperandP FlagsP RmP AluP AluRmP AluMemP Alu32P AluImmP AluImm32P TestP FlagsUnP UnaryP Unary32P AdcP MovImmP ShiftP Shift32P MovxP Alu16P Alu8P AluImm16P AluImm8P Unary16P Unary8P Test16P Test8P MovImm16P MovImm8P Adc32P AdcImmP MovStore32P MovStore16P MovStore8P Adc16P Adc8P Div32P MulP Shift16P Shift8P.
+From AxV Require Import Bits Outcome Codes Iced State Rt Mem Trace Exec ExecP FrameTac FrameP RegFile RegsP ByteStore ISA CodeSem IsaP OperandP FlagsP RmP AluP AluRmP AluMemP Alu32P AluImmP AluImm32P TestP FlagsUnP UnaryP Unary32P AdcP MovImmP ShiftP Shift32P MovxP Alu16P Alu8P AluImm16P AluImm8P Unary16P Unary8P Test16P Test8P MovImm16P MovImm8P Adc32P AdcImmP MovStore32P MovStore16P MovStore8P Adc16P Adc8P Div32P MulP Shift16P Shift8P AdcImm8P.
 From AxG Require Import Flags Regs Operand Helpers Dispatch Frame I_add I_and I_sub I_cmp I_xor I_test I_inc I_dec I_neg I_not I_adc I_shl I_shr I_imul I_mul.
 Local Open Scope Z_scope.
 
@@ -701,6 +701,27 @@ Proof.
   - exact (adc_al_imm8_refines c i s Hwf HI Hrf Hn).
 Qed.
 
+(* ADC r/m, imm8: the immediate is a sign-extended byte (the last hypothesis; iced guarantees it and the run checks it) *)
+Theorem C02_adc_imm8 : forall c i s,
+  wf_regs s -> Inv (mem s) -> 0 <= rflags s < 2 ^ 64 -> i_op_count i = 2 ->
+  (rm64_shape i 0 -> i_op_kind i 1 = OK_Immediate8to64 -> 0 <= i_immediate8to64 i < 2 ^ 64 ->
+     (i_immediate8to64 i < 128 \/ 2 ^ 64 - 128 <= i_immediate8to64 i) ->
+     i_code i = C_Adc_rm64_imm8 -> adc_refines i s (instr_adc_rm64_imm8 c i s)) /\
+  (rm32_shape i 0 -> i_op_kind i 1 = OK_Immediate8to32 -> 0 <= i_immediate8to32 i < 2 ^ 32 ->
+     (i_immediate8to32 i < 128 \/ 2 ^ 32 - 128 <= i_immediate8to32 i) ->
+     i_code i = C_Adc_rm32_imm8 -> rmw32_refines i s ADC (instr_adc_rm32_imm8 c i s)) /\
+  (rm16_shape i 0 -> i_op_kind i 1 = OK_Immediate8to16 -> 0 <= i_immediate8to16 i < 2 ^ 16 ->
+     (i_immediate8to16 i < 128 \/ 2 ^ 16 - 128 <= i_immediate8to16 i) ->
+     i_code i = C_Adc_rm16_imm8 -> rmw16_refines i s ADC (instr_adc_rm16_imm8 c i s)) /\
+  (rm8_shape i 0 -> imm8_shape i -> i_code i = C_Adc_rm8_imm8_82 -> rmw8_refines i s ADC (instr_adc_rm8_imm8_82 c i s)).
+Proof.
+  intros c i s Hwf HI Hrf Hn. repeat split.
+  - exact (adc_rm64_imm8_refines c i s Hwf HI Hrf Hn).
+  - exact (adc_rm32_imm8_refines c i s Hwf HI Hrf Hn).
+  - exact (adc_rm16_imm8_refines c i s Hwf HI Hrf Hn).
+  - exact (adc_rm8_imm8_82_refines c i s Hwf HI Hrf Hn).
+Qed.
+
 (* ---- multiplication.  The architecture leaves SF, ZF and PF undefined after MUL / IMUL; the emulator's flag
    helper is called with the constant result 0, so it sets ZF and keeps SF and PF.  mul_refines says: the step
    succeeds exactly when the specification completes, and its state is the specification's with ZF set - every
@@ -881,3 +902,4 @@ Print Assumptions C02_shift_rm8.
 Print Assumptions C02_shift_rm32_1.
 Print Assumptions C02_shift_rm16_1.
 Print Assumptions C02_shift_rm8_1.
+Print Assumptions C02_adc_imm8.
